@@ -49,7 +49,6 @@ Nt2V2 == << R(C1("nt2", Y), <<>>, ListOf(<<Y>>)) >>
 Nt2V3 == << R(C1("nt2", Y), <<>>, Bar(Seq2(Ta, Curly(Eq(Y, I(1)))), Seq2(Tab, Curly(Eq(Y, I(2)))))) >>
 Nt2V4 == << R(C1("nt2", Y), <<Y>>, ListOf(<<Y>>)) >>          \* look-ahead by pushback
 Nt3R  == << R(N3, <<>>, Te), R(N3, <<>>, Seq2(Ta, N3)) >>
-Nt2Variants == IF Tier = "quick" THEN {Nt2V1, Nt2V3} ELSE {Nt2V1, Nt2V2, Nt2V3, Nt2V4}
 
 (* Prolog helper predicates for {}//1 goals *)
 Helpers == << [h |-> C1("q", a), b |-> True], [h |-> C1("q", b), b |-> True] >>
@@ -82,14 +81,16 @@ Level2Q == { Seq2(p, Bar(q, r)) : p \in {Ta, N2}, q \in {Tx, Cut, Gx}, r \in {Te
 
 IteX == L1Ite({Ta, N2, Gx, Tx, Gq, Cut, Tab}, {Te, Tx, Cut, N3, Tb}, {Te, Tx, Tab, N2})
 Level1X == L1Seq(AtomsX, AtomsX) \cup L1Bar(AtomsX, AtomsX) \cup L1Semi(AtomsQ, AtomsQ) \cup IteX
-Level1S == L1Seq(AtomsS, AtomsS) \cup L1Bar(AtomsS, AtomsS) \cup L1Ite({Ta, N2}, {Tx, Cut}, {Te, Tx})
-Level2X == L1Seq(Level1S, AtomsQ) \cup L1Seq(AtomsQ, Level1S) \cup L1Bar(Level1S, AtomsQ) \cup L1Bar(AtomsQ, Level1S)
+(* depth 3 (thorough): a depth-2 body over the alphabet AtomsT on either side of a sequence / alternative *)
+AtomsT == { Ta, Tx, N2, Cut }
+Level1T == L1Seq(AtomsT, AtomsT) \cup L1Bar(AtomsT, AtomsT) \cup L1Ite({Ta, N2}, {Tx, Cut}, {Te, Tx})
+Level2X == L1Seq(Level1T, AtomsT) \cup L1Seq(AtomsT, Level1T) \cup L1Bar(Level1T, AtomsT) \cup L1Bar(AtomsT, Level1T)
            \cup L1Ite(L1Seq(AtomsS, AtomsS), {Tx, Cut}, {Te, Tab}) \cup Level2Q
 
-RuleBodies == IF Tier = "quick" THEN AtomsX \cup Level1Q \cup Level2Q
-              ELSE AtomsX \cup Level1X \cup Level2X
+BodiesA == AtomsX \cup Level1Q                       \* depth <= 2, basic alphabet
+BodiesB == (Level1X \ Level1Q) \cup Level2X           \* depth 2 over the extended alphabet, depth 3
 PbBodies   == IF Tier = "quick" THEN AtomsQ \cup L1Seq({Ta, Tx, N2}, {Tx, Cut, Te}) \cup L1Bar({Ta, Tx}, {Te, Tab})
-              ELSE AtomsX \cup Level1Q
+              ELSE BodiesA
 
 (* bodies given directly to phrase/3; some of them contain the constructs Scryer rejects *)
 BadBodies == { NotD(Ta), ItD(Ta, Tb), Seq2(Ta, NotD(Tb)), Seq2(NotD(Ta), Tb), Bar(ItD(Ta, Tb), Tc), Bar(Tc, ItD(Ta, Tb)),
@@ -97,46 +98,53 @@ BadBodies == { NotD(Ta), ItD(Ta, Tb), Seq2(Ta, NotD(Tb)), Seq2(NotD(Ta), Tb), Ba
 PhraseBodies == (IF Tier = "quick" THEN AtomsX \cup L1Seq(AtomsS, AtomsS) \cup L1Bar(AtomsS, AtomsS) \cup IteQ
                                          \cup { Seq2(p, Bar(q, r)) : p \in {Ta, N2}, q \in {Cut}, r \in {Te, Tab} }
                                          \cup { Bar(Seq2(p, Cut), q) : p \in {Ta, N2, Tx}, q \in {Te, Tab, Tx} }
-                 ELSE AtomsX \cup Level1Q \cup Level2Q) \cup BadBodies
+                 ELSE BodiesA \cup Level2Q) \cup BadBodies
 
 (* ---- grammars ---- *)
-WithHelpers(rules, bd) ==
+VarsQ == {Nt2V1, Nt2V3}
+VarsX == {Nt2V1, Nt2V2, Nt2V3, Nt2V4}
+WithHelpers(rules, bd, vs) ==
   LET n3 == IF Mentions(bd, "nt3") THEN Nt3R ELSE <<>>
-  IN IF Mentions(bd, "nt2") THEN { rules \o v \o n3 : v \in Nt2Variants } ELSE { rules \o n3 }
+  IN IF Mentions(bd, "nt2") THEN { rules \o v \o n3 : v \in vs } ELSE { rules \o n3 }
 
 NT1X == C1("nt1", X)
-(* the rule under test followed / preceded by a second rule for nt1 (clause order matters for bodies with a cut: *)
-(* quick restricts the "preceded" order to those), alone, and with a structured head                          *)
-RuleGrammars ==
-  UNION { UNION { WithHelpers(rs, bd) :
-                  rs \in { << R(NT1X, <<>>, bd), R(C1("nt1", c), <<>>, Tc) >> } \cup
-                         (IF Tier = "quick" /\ ~Mentions(bd, "!") THEN {} ELSE { << R(C1("nt1", c), <<>>, Tc), R(NT1X, <<>>, bd) >> }) \cup
-                         (IF Tier = "quick" THEN {} ELSE { << R(NT1X, <<>>, bd) >>, << R(C1("nt1", C1("f", X)), <<>>, bd) >> }) }
-          : bd \in RuleBodies }
-PbGrammars ==
-  UNION { WithHelpers(<< R(NT1X, pb, bd) >>, bd) : bd \in PbBodies, pb \in { <<b>>, <<X>> } }
+(* the rule under test followed / preceded by a second rule for nt1 (the clause order matters for bodies with a   *)
+(* cut: the "preceded" order is generated for those), and with a structured head; ml = bound on the input length *)
+CfgTwo(bd) == << R(NT1X, <<>>, bd), R(C1("nt1", c), <<>>, Tc) >>
+CfgPre(bd) == << R(C1("nt1", c), <<>>, Tc), R(NT1X, <<>>, bd) >>
+CfgF(bd)   == << R(C1("nt1", C1("f", X)), <<>>, bd) >>
+RuleCase(rs, bd, vs, ml) == { [kind |-> "rule", gram |-> g, body |-> NT1X, ml |-> ml] : g \in WithHelpers(rs, bd, vs) }
+PreIfCut(bd, vs, ml) == IF Mentions(bd, "!") THEN RuleCase(CfgPre(bd), bd, vs, ml) ELSE {}
 
-Cases ==      \* [kind, gram, body]
-  { [kind |-> "rule", gram |-> g, body |-> NT1X] : g \in RuleGrammars \cup PbGrammars }
-  \cup UNION { { [kind |-> "body", gram |-> g, body |-> bd] : g \in WithHelpers(<<>>, bd) } : bd \in PhraseBodies }
+RuleCases ==
+  IF Tier = "quick"
+  THEN UNION { RuleCase(CfgTwo(bd), bd, VarsQ, 3) \cup PreIfCut(bd, VarsQ, 3) : bd \in BodiesA \cup Level2Q }
+  ELSE UNION { RuleCase(CfgTwo(bd), bd, VarsX, 4) \cup PreIfCut(bd, VarsX, 3) \cup RuleCase(CfgF(bd), bd, VarsX, 3) : bd \in BodiesA }
+       \cup UNION { RuleCase(CfgTwo(bd), bd, VarsQ, 3) \cup PreIfCut(bd, VarsQ, 3) : bd \in BodiesB }
+PbCases ==
+  UNION { RuleCase(<< R(NT1X, pb, bd) >>, bd, IF Tier = "quick" THEN VarsQ ELSE {Nt2V1, Nt2V4}, 3) : bd \in PbBodies, pb \in { <<b>>, <<X>> } }
+
+Cases ==      \* [kind, gram, body, ml]
+  RuleCases \cup PbCases
+  \cup UNION { { [kind |-> "body", gram |-> g, body |-> bd, ml |-> IF Tier = "quick" THEN 2 ELSE 3] :
+                 g \in WithHelpers(<<>>, bd, IF Tier = "quick" THEN VarsQ ELSE VarsX) } : bd \in PhraseBodies }
 
 (* ---- inputs ---- *)
 Tok == {a, b, c}
 Lists(n) == UNION { { ListOf(s) : s \in [1..k -> Tok] } : k \in 0..n }
 E1 == V("E1")  E2 == V("E2")  TT == V("T")  LL == V("L")  RR == V("R")  GG == V("G")
 Partial == { LL, PListOf(<<a>>, TT), ListOf(<<E1>>), ListOf(<<a, E1>>), PListOf(<<E1, b>>, TT), ListOf(<<E1, E2>>) }
-MaxLen == IF Tier = "quick" THEN 3 ELSE 4
 
 QL == IF Tier = "quick" THEN 1 ELSE 2
 Queries(cs) ==
   LET bd == cs.body IN
   IF cs.kind = "rule" THEN
-       { [qk |-> "p3", q |-> C3("phrase", bd, l, RR)] : l \in Lists(MaxLen) \cup Partial }
+       { [qk |-> "p3", q |-> C3("phrase", bd, l, RR)] : l \in Lists(cs.ml) \cup Partial }
        \cup { [qk |-> "p2", q |-> C2("phrase", bd, l)] : l \in Lists(QL) \cup Partial }
        \cup { [qk |-> "p3", q |-> C3("phrase", C1("nt1", b), l, RR)] : l \in Lists(QL) \cup {LL} }
        \cup { [qk |-> "var", q |-> Conj(Eq(GG, bd), C3("phrase", GG, l, RR))] : l \in Lists(1) \cup {LL} }
-  ELSE { [qk |-> "p3", q |-> C3("phrase", bd, l, RR)] : l \in Lists(MaxLen - 1) \cup Partial }
-       \cup { [qk |-> "var", q |-> Conj(Eq(GG, bd), C3("phrase", GG, l, RR))] : l \in Lists(MaxLen - 1) \cup Partial }
+  ELSE { [qk |-> "p3", q |-> C3("phrase", bd, l, RR)] : l \in Lists(cs.ml) \cup Partial }
+       \cup { [qk |-> "var", q |-> Conj(Eq(GG, bd), C3("phrase", GG, l, RR))] : l \in Lists(cs.ml) \cup Partial }
        \cup { [qk |-> "p2", q |-> C2("phrase", bd, l)] : l \in Lists(QL) }
        \* phrase/3 in a context with an outer choice point: a cut in the body must stay local to phrase/3
        \cup { [qk |-> "ctx", q |-> Semi(C3("phrase", bd, l, RR), Eq(RR, A("z")))] : l \in Lists(2) \cup {LL} }
